@@ -37,12 +37,16 @@ MENU = {
 }
 NAMES = list(MENU)
 # the same menu in other coordinate frames x -> a*x + b (wavelengths in SI metres; a large offset relative to the step)
-FRAMES = {"plain": (1.0, 0.0), "metres": (0.5e-9, 300e-9), "offset1e6": (1.0, 1.0e6)}
+# "int": integer-valued domains are handed over as integer-typed arrays (np.arange(300, 700) style)
+FRAMES = {"plain": (1.0, 0.0), "metres": (0.5e-9, 300e-9), "offset1e6": (1.0, 1.0e6), "int": (1.0, 0.0)}
 
 
 def _dom(name, frame):
     a, b = FRAMES[frame]
-    return np.array([a * v + b for v in MENU[name]], dtype=float)
+    d = np.array([a * v + b for v in MENU[name]], dtype=float)
+    if frame == "int" and np.all(d == np.round(d)):
+        return d.astype(np.int64)
+    return d
 
 
 def _v(rec, clause, sig, *a, **k):
@@ -265,4 +269,27 @@ def _run_estimator(unit, rec, dreye):
             rec.outcome("est-%s/%s" % (cls, "ok" if ok else "bad"))
             if not ok:
                 _v(rec, "f", dict(sig, api=api, what="value"), "capture with a foreign domain differs from the trapezoid integral of interpolated signal x interpolated filters on the common grid", case, observed=out, expected=exp)
+            if api == "register_system":
+                # history: registering a system measured on its own domain must not change later captures of the estimator
+                # (differential oracle: an estimator that never registered a system; its answers are decided above)
+                for fc in NAMES:
+                    dc = np.array(MENU[fc], dtype=float)
+                    sc = np.array([((np.arange(len(dc)) * 5 + j) % 7) * 0.25 for j in range(2)])
+                    rec.path()
+                    rec.trans(3)
+                    res = []
+                    for e_ in (est, dreye.ReceptorEstimator(filters, domain=da)):
+                        try:
+                            res.append(np.asarray(e_.capture(sc, domain=dc)))
+                        except Exception as e:  # noqa
+                            res.append(type(e).__name__)
+                    if isinstance(res[0], str) or isinstance(res[1], str):
+                        same = isinstance(res[0], str) and isinstance(res[1], str) and res[0] == res[1]
+                    else:
+                        same = res[0].shape == res[1].shape and bool(np.array_equal(res[0], res[1]))
+                    rec.distinct((fa, fb, fc, "after-register_system"))
+                    rec.outcome("est-history/%s" % ("same" if same else "differs"))
+                    if not same:
+                        _v(rec, "f", dict(sig, api="register_system->capture", what="history"), "capture(signal, domain=...) changes after register_system(sources, domain=...) on another domain",
+                           dict(filters_domain=fa, system_domain=fb, signal_domain=fc), observed=res[0], expected=res[1])
     rec.sample(dict(api="ReceptorEstimator.capture(domain=)", pairs=len(NAMES) ** 2), cap=1)
